@@ -2,6 +2,7 @@ package vsched
 
 import (
 	"fmt"
+	"strings"
 	"unsafe"
 )
 
@@ -15,7 +16,21 @@ type epochRW struct {
 	tid    int
 	clk    uint32
 	atomic bool
+	tag    string
 }
+
+// Tag labels what the current thread is doing (e.g. "Status()") until Untag; data race
+// reports name the labels of both accesses, so that a check can tell whose race it is.
+func Tag(label string) {
+	if S != nil && S.cur != nil {
+		S.cur.tag = label
+	}
+}
+
+func Untag() { Tag("") }
+
+// RacePrefix starts every data race message; the location's name follows, up to the colon.
+const RacePrefix = "data race on "
 
 type shadowLoc struct {
 	name  string
@@ -42,6 +57,26 @@ func access(p unsafe.Pointer, name string, write bool, atomic bool) {
 		s.shadow = make(map[uintptr]*shadowLoc)
 	}
 	key := uintptr(p)
+	if !atomic && s.promote[name] {
+		// a location found racy earlier: its plain accesses are visible operations now, so
+		// that the interleavings of the racing statements are explored like any others
+		if s.plain == nil {
+			s.plain = make(map[uintptr]*Obj)
+		}
+		o := s.plain[key]
+		if o == nil {
+			o = NewObj("plain:" + name)
+			s.plain[key] = o
+		}
+		kind := "plain-read "
+		if write {
+			kind = "plain-write "
+		}
+		Post(&Op{Name: kind + name, Obj: o, ReadOnly: !write})
+		if s.cur != t || t.aborting || s.aborted {
+			return
+		}
+	}
 	loc := s.shadow[key]
 	if loc == nil {
 		loc = &shadowLoc{name: name}
@@ -53,18 +88,18 @@ func access(p unsafe.Pointer, name string, write bool, atomic bool) {
 	if name == "" {
 		name = loc.name + "(atomic access)"
 	}
-	me := epochRW{t.ID, t.vc.at(t.ID), atomic}
+	me := epochRW{t.ID, t.vc.at(t.ID), atomic, t.tag}
 	if loc.hasW && loc.w.tid != t.ID && loc.w.clk > t.vc.at(loc.w.tid) && !(atomic && loc.w.atomic) {
 		kind := "read"
 		if write {
 			kind = "write"
 		}
-		s.reportRace(name, s.threads[loc.w.tid], "write", t, kind)
+		s.reportRace(name, s.threads[loc.w.tid], "write", loc.w.tag, t, kind)
 	}
 	if write {
 		for _, r := range loc.reads {
 			if r.tid != t.ID && r.clk > t.vc.at(r.tid) && !(atomic && r.atomic) {
-				s.reportRace(name, s.threads[r.tid], "read", t, "write")
+				s.reportRace(name, s.threads[r.tid], "read", r.tag, t, "write")
 			}
 		}
 		loc.w, loc.hasW = me, true
@@ -80,15 +115,23 @@ func access(p unsafe.Pointer, name string, write bool, atomic bool) {
 	loc.reads = append(loc.reads, me)
 }
 
-func (s *Sched) reportRace(name string, a *Thread, ak string, b *Thread, bk string) {
+func inTag(tag string) string {
+	if tag == "" {
+		return ""
+	}
+	return " [in " + tag + "]"
+}
+
+func (s *Sched) reportRace(name string, a *Thread, ak string, atag string, b *Thread, bk string) {
 	if s.raceKey == nil {
 		s.raceKey = make(map[string]bool)
 	}
-	msg := fmt.Sprintf("data race on %s: %s by thread %s is not ordered (happens-before) with earlier %s by thread %s", name, bk, b.Name, ak, a.Name)
-	k := name + "|" + ak + "|" + bk
+	msg := fmt.Sprintf(RacePrefix+"%s: %s by thread %s%s is not ordered (happens-before) with earlier %s by thread %s%s", name, bk, b.Name, inTag(b.tag), ak, a.Name, inTag(atag))
+	k := name + "|" + ak + "|" + bk + "|" + atag + "|" + b.tag
 	if !s.raceKey[k] {
 		s.raceKey[k] = true
 		s.races = append(s.races, msg)
+		s.raceLocs = append(s.raceLocs, strings.TrimSuffix(name, "(atomic access)"))
 	}
 }
 
